@@ -408,7 +408,12 @@ EXTRA_TEXT = {
          "loops, constant folding), DESTRUCTURING `as` with nested array/object patterns (opindexarray), COMPUTED INDEX and SLICES "
          "(calls of _index/_slice with expbegin/expend), STRING INTERPOLATION (@text/@json): all 11 theorems of props/C01vm.v "
          "(final code = denotation, converse, never stuck, tail-call pass, peephole) now quantify over F3; later additions are "
-         "listed in docs/C01vm.md. `?//` is documented as needing a generalisation of the generator predicate (its fork intercepts "
+         "listed in docs/C01vm.md. FIFTH WAVE: destructuring patterns in reduce/foreach, error(q), the optional suffix on every term form, "
+         "format natives in interpolation; and builtins WRITTEN IN JQ are tied to the VM theorem: compiler.go compiles such a builtin on "
+         "first use as an ordinary definition, so the program P' = definitions of builtin.jq in front of P is inside the fragment; on "
+         "every run the harness checks that its transcription compiles to the same instruction list as the definitions parsed from "
+         "/repo/builtin.jq, and the implementation's outputs on P itself are judged against the denotation of P' (map select not "
+         "recurse .. while until first last isempty all any nth limit skip combinations to_entries ...). `?//` is documented as needing a generalisation of the generator predicate (its fork intercepts "
          "errors raised downstream of the whole expression)."),
  "C03": (" THIRD WAVE: 75 natives are now PROVED against Spec.v on all well-formed inputs (C03_meets_doc_listed: one statement "
          "quantifying over the explicit list), incl. bsearch (what sort.Search computes on any array; insertion point on partitioned "
